@@ -388,10 +388,12 @@ class SMCSampler(MCMCSampler):
         # If n_final_samples is specified and differs, perform additional mutation steps
         if n_final_samples is not None and len(samples.x) != n_final_samples:
             logger.info(f"Generating {n_final_samples} final samples")
+            # At the temperature the loop ended at (1 unless the step cap
+            # stopped it earlier): a change of size, not a tempering step
             final_samples = samples.resample(
-                1.0, n_samples=n_final_samples, rng=self.rng
+                beta, n_samples=n_final_samples, rng=self.rng
             )
-            samples = self.mutate(final_samples, 1.0, n_steps=n_final_steps)
+            samples = self.mutate(final_samples, beta, n_steps=n_final_steps)
 
         samples.log_evidence = samples.xp.sum(
             asarray(self.history.log_norm_ratio, self.xp)
